@@ -59,11 +59,21 @@ def scenarios(ctx, per_cell):
                 for runner in ("graph", "mtgraph"):
                     n += 1
                     out.append(dict(base, runner=runner, id=f"{n}:{chain}@{rate}/{runner}"))
+    # long streams (many transmissions back to back): positions beyond 2^22 samples, where
+    # f32 sample counters lose sub-sample resolution
+    for chain, rate, nfr, lens in (("9600", 50000, 440, (200, 300)), ("1200", 44100, 56, (230, 300))) + \
+            ((("9600", 100000, 260, (250, 300)), ("1200", 50000, 56, (230, 300))) if ctx.thorough() else ()):
+        frames = [{"class": rnd.choice(["random", "random", "stuffing"]), "len": rnd.randint(*lens)} for _ in range(nfr)]
+        base = {"chain": chain, "rate": rate, "frames": frames, "preamble": 30, "gap": 2, "phase": 1.0, "toff": 0.31, "seed": rnd.randrange(1 << 30)}
+        for runner in ("graph", "mtgraph"):
+            n += 1
+            out.append(dict(base, runner=runner, id=f"{n}:{chain}@{rate}/{runner}/long"))
     return out
 
 
 def run_scenarios(ctx, scs, tag):
     import concurrent.futures
+    scs = sorted(scs, key=lambda s: -len(s["frames"]) * (300 if len(s["frames"]) > 20 else 1))
     chunks = [scs[i::12] for i in range(12) if scs[i::12]]
 
     def one(i):
